@@ -222,7 +222,7 @@ def _solver_objs(st, m):
     return [m.oid, sol.oid, C4.objective_of(st, m).oid, _dl(st, m).oid]
 
 
-GHOSTS = ("objc", "objc_np", "objective_installed")
+GHOSTS = ("objc", "objc_np", "objective_installed", "installed_objective")
 
 
 def _same_problem(sa, sb, m, heap=("_lower_bound", "_upper_bound", "_id"), eng=None):
@@ -232,6 +232,9 @@ def _same_problem(sa, sb, m, heap=("_lower_bound", "_upper_bound", "_id"), eng=N
     for g in GHOSTS:
         x, y = sa.ghost.get(g), sb.ghost.get(g)
         same = same and (x is y or (x is not None and y is not None and z3.is_expr(x) and z3.is_expr(y) and x.eq(y)))
+    for k in set(sa.ghost) | set(sb.ghost):
+        if isinstance(k, tuple) and k and k[0] == "added":
+            same = same and sa.ghost.get(k) is sb.ghost.get(k)
     return bool(same)
 
 
@@ -483,10 +486,13 @@ def _moma_visible(E, S, ln, elem):
 
 
 VISIBLE = {"add_room": _room_visible, "add_moma": _moma_visible}
+VISIBLE_CALL = {}
 
 
 def _builder_post_call(key):
     def post(E):
+        if key in VISIBLE_CALL:
+            return VISIBLE_CALL[key](E)
         g = E.s1.ghost.get(("added", key))
         if g is None:
             return z3.BoolVal(False)
@@ -511,8 +517,12 @@ REG.get("add_room").call_cases = _builder_call_cases("add_room", CR._already)
 REG.get("add_moma").call_cases = _builder_call_cases("add_moma", CM._already, "linear/")
 
 
+def _is_false(v):
+    return isinstance(v, VBool) and z3.is_false(z3.simplify(v.t))
+
+
 def add_moma_contract_for(linear):
-    return REG.get("add_moma")
+    return REG.get(QKEY) if _is_false(linear) else REG.get("add_moma")
 
 
 # ================================================================ moma / room
@@ -522,19 +532,25 @@ BUILDER = {"moma": ("add_moma", ("model", "solution", "linear")), "room": ("add_
 def _driver_mod(key):
     def mod(E):
         m = E["model"]
-        return _ctx_mod(E) + CR._mod(Env({"model": m}, E.s0, eng=E.eng)) + C4._slim_mod(Env({"self": m}, E.s0, eng=E.eng))
+        return _ctx_mod(E) + CR._mod(Env({"model": m}, E.s0, eng=E.eng)) + C4._slim_mod(Env({"self": m}, E.s0, eng=E.eng)) + \
+            [("ghost", "installed_objective", lambda st: None)]
     return mod
 
 
+def _builder_key(key, E):
+    return QKEY if key == "moma" and _is_false(E["linear"]) else BUILDER[key][0]
+
+
 def _driver_post(key):
-    bkey, names = BUILDER[key]
+    bname, names = BUILDER[key]
 
     def post(E):
+        bkey = _builder_key(key, E)
         if E.role != "goal":
             return _visible_driver_result(E)
         m = E["model"]
         tr = _tr(E.s1)
-        if [ev[0] for ev in tr] != [bkey, "optimize"]:
+        if [ev[0] for ev in tr] != [bname, "optimize"]:
             return z3.BoolVal(False)
         # BUILD: the builder, every argument the driver's own, first, on the untouched model, in the own context
         _, pos, kws, st_b, st_built, _none = tr[0]
@@ -564,12 +580,15 @@ def _visible_driver_result(E):
 
 
 def _driver_solve_failed(key):
-    bkey, _ = BUILDER[key]
+    """OptimizationError: from the ONE solve after the builder - or from the builder's own reference pfba(model) (solution None),
+    in which case nothing was built; the context is closed either way"""
+    bname, _ = BUILDER[key]
 
     def post(E):
         if E.role != "goal":
             return _stack_as_at_entry(E, E.s1)
-        if [ev[0] for ev in _tr(E.s1)] != [bkey, "optimize:raised"]:
+        names = [ev[0] for ev in _tr(E.s1)]
+        if names != [bname, "optimize:raised"] and not (names == [] and isinstance(E["solution"], VNone)):
             return z3.BoolVal(False)
         return _stack_as_at_entry(E, E.s1)
     return post
@@ -585,7 +604,8 @@ def _driver_cases(key, already, variants):
     out = []
     for vtag, vover in variants:
         for tag, t in (("reference_given", N.TNp()), ("reference_from_pfba", TNone())):
-            pred = (lambda tag: lambda a, st: isinstance(a["solution"], VNone) == (tag != "reference_given"))(tag)
+            pred = (lambda tag, vover: lambda a, st: isinstance(a["solution"], VNone) == (tag != "reference_given") and (
+                "linear" not in vover or _is_false(a["linear"]) == (vover["linear"].py is False)))(tag, vover)
             c = Case(vtag + tag, requires=lambda E: z3.Not(already(E)), ensures=_driver_post(key))
             c.may_raise = "OptimizationError"
             c.ensures_on_raise = _driver_solve_failed(key)
@@ -602,8 +622,8 @@ _sol.default = NONE
 _lin_m = TConc(True)
 _lin_m.default = VBool(True)
 REG.add(Contract(CM.MM, "moma", "C09", [("model", _model_t()), ("solution", _sol), ("linear", _lin_m)],
-                 _driver_cases("moma", CM._already, [("linear/", {"linear": TConc(True)})]),
-                 pre=CR._pre, modifies=_driver_mod("moma"), key="moma", result=_new_result,
+                 _driver_cases("moma", CM._already, [("linear/", {"linear": TConc(True)}), ("quadratic/", {"linear": TConc(False)})]),
+                 pre=lambda E: _q_pre(E) if _is_false(E["linear"]) else CR._pre(E), modifies=_driver_mod("moma"), key="moma", result=_new_result,
                  note="preconditions of add_moma; the rollback of the MOMA problem at context exit is C03 / C13 (not replayed here)"))
 _sol2 = N.TNp()
 _sol2.default = NONE
@@ -613,3 +633,287 @@ REG.add(Contract(CR.MR, "room", "C09", [("model", _model_t()), ("solution", _sol
                  _driver_cases("room", CR._already, [("", {})]),
                  pre=CR._pre, modifies=_driver_mod("room"), key="room", result=_new_result,
                  note="preconditions of add_room; the rollback of the ROOM problem at context exit is C03 / C13 (not replayed here)"))
+
+
+# ================================================================ add_moma, QUADRATIC formulation (linear=False)   [key add_moma@quadratic]
+# Documented (docstring of add_moma): minimise sum_i (v^t_i)^2  s.t.  S v^d = 0,  v^t = v^d_i - v_i,  lb_i <= v^d_i <= ub_i, the former
+# objective kept as the variable "moma_old_objective"; "If no solution is given, one will be computed using pFBA".  Proved for models
+# with any number of reactions, in the opaque algebra (like the linear branch).  With S the reference (the solution given, else the
+# result of ONE pfba(model) - by the PROVED contract `pfba` above, made before anything is built or added, its exceptions propagate with
+# nothing added) and for EVERY reaction r of the model, in model order, w = S.fluxes[r.id] looked up BY THE REACTION'S ID:
+#     dist_r  = Variable("moma_dist_" + r.id)                                   (free: no bounds)
+#     const_r = Constraint(flux_expression(r) - dist_r, lb=w, ub=w, name="moma_constraint_" + r.id)       i.e. v^t_r = v_r - w
+# the function (a) replaces the objective by Objective(Zero, direction="min", sloppy=True), (b) makes exactly ONE call
+# model.add_cons_vars(L),  L = [Variable("moma_old_objective"), Constraint(<objective expression AT ENTRY> - it, lb=0.0, ub=0.0,
+# name="moma_old_objective_constraint"), dist_r1, const_r1, dist_r2, const_r2, ...]  (len 2 + 2n), and (c) LAST sets the objective to
+# Objective(add([dist_r1**2, dist_r2**2, ...]), direction="min", sloppy=True) - the list given to optlang.symbolics.add has exactly n
+# entries, the j-th the square of the j-th reaction's distance variable.  ValueError, nothing done, when "moma_old_objective" exists.
+# Stated precondition: the model's solver interface is QP-capable (interface_to_str(model.problem) in qp_solvers), so that the
+# solver-switch branch (model.solver = choose_solver(model, qp=True): a different interface, a rebuilt objective) is not taken - in
+# this image no QP solver is installed at all; with solution None additionally: no pFBA objective installed (pfba would refuse).
+# Trusted at the pfba call site: the context exit inside pfba rolls the objective back (C03 / C13; `apply_restoring`).
+QKEY = "add_moma@quadratic"
+CR.MINE.add(QKEY)
+SUTIL = ("module", "cobra.util.solver")
+QP_SOLVERS = z3.Const("np:sutil.qp_solvers", N.NP)
+
+
+def _quad(eng):
+    return getattr(getattr(eng, "cur_contract", None), "key", None) == QKEY
+
+
+def apply_restoring(eng, st, pos, kw):
+    """pfba(model) at a call site: the PROVED contract, then the rollback its context exit performs (trusted: C03 / C13) - the
+    objective (name, direction, expression, coefficient ghosts) is again the one the call found; status / value are the solve's"""
+    m = pos[0] if pos else kw["model"]
+    obj0 = C4.objective_of(st, m)
+    rec0 = st.objs[obj0.oid]
+    res = []
+    for k, s, v in eng.apply_contract(st, REG.get("pfba"), list(pos), kw):
+        keep = {a: rec0[a] for a in ("attr:name", "attr:direction", "attr:expression") if a in rec0}
+        s = s.updobj(C4.objective_of(s, m).oid, **keep)
+        for g in GHOSTS + ("trace",):
+            s = s.setghost(g, st.ghost[g]) if g in st.ghost else s.setghost(g, None) if g in s.ghost else s
+        if s.ghost.get("trace") is None:
+            s = s.setghost("trace", ())
+        res.append((k, s, v))
+    return res
+
+
+def q_global(eng, name):
+    if _quad(eng) and name == "add":
+        return VFunc("abstract", "symbolics.add")
+    return None
+
+
+def q_getattr(eng, st, v, name):
+    if _quad(eng) and isinstance(v, VConc) and v.py == SUTIL:
+        if name == "interface_to_str":
+            return [("ok", st, VFunc("abstract", "interface_to_str"))]
+        if name == "qp_solvers":
+            return [("ok", st, N.VNp(QP_SOLVERS))]
+    return None
+
+
+def q_call_abstract(eng, st, f, pos, kw):
+    if not _quad(eng):
+        return None
+    if f.a == "interface_to_str":
+        return [("ok", st, N.app("interface_to_str", *pos))]
+    if f.a == "symbolics.add":
+        # optlang.symbolics.add(list): the sum of the list's entries - recorded with the list as it is NOW; the sum itself is opaque
+        what = pos[0] if len(pos) == 1 and not kw else None
+        snap = None
+        if isinstance(what, VObj) and what.kind == "list":
+            rec = st.objs[what.oid]
+            snap = (rec["len"], rec["elem"], rec["ekind"])
+        total = N.VNp(fresh("np:sum_of_squares", N.NP))
+        return [("ok", _log(st, _tr(st), "symbolics.add", snap, total), total)]
+    if f.a == "pfba":
+        untouched = not any(ev[0] != "pfba" for ev in _tr(st))
+        res = []
+        for k, s, v in apply_restoring(eng, st, pos, kw):
+            if k == "ok":
+                s = _log(s, _tr(st), "pfba", tuple(pos), tuple(sorted(kw)), v, untouched)
+            res.append((k, s, v))
+        return res
+    return None
+
+
+def q_setattr(eng, st, v, name, val):
+    """model.objective = <optlang Objective>: recorded (which objective, when); the objective object's fields become the new one's"""
+    if _quad(eng) and isinstance(v, VObj) and v.cls == "Model" and name == "objective" and isinstance(val, N.VNp):
+        obj = CR._objective_of(st, v)
+        st2 = st.updobj(obj.oid, **{"attr:name": VStr(fresh("objname", Id)), "attr:expression": N.VNp(fresh("np:objexpr", N.NP)),
+                                    "attr:direction": VStr(N_direction(val.t))})
+        return [("ok", _log(st2.setghost("installed_objective", val.t), _tr(st), "set_objective", val.t), NONE)]
+    return None
+
+
+objective_direction = z3.Function("np:objective.direction", N.NP, Id)
+
+
+def N_direction(t):
+    """the direction of an optlang Objective built by the opaque constructor call (uninterpreted; pinned for the documented terms)"""
+    return objective_direction(t)
+
+
+Q_HOOKS = {"global": q_global, "getattr": q_getattr, "call_abstract": q_call_abstract, "setattr": q_setattr}
+
+
+def q_dist(E, r):
+    return N.term("call", N.term("attr.Variable", CR._prob(E)), CR._name(E, "moma_dist_", r))
+
+
+def q_const(E, S, r):
+    w = CR.reference(E, S, r)
+    return N.term("call(lb,name,ub)", N.term("attr.Constraint", CR._prob(E)), N.term("sub", CR.flux_expression(r), q_dist(E, r)),
+                  w, CR._name(E, "moma_constraint_", r), w)
+
+
+def q_square(E, r):
+    return N.term("pow", q_dist(E, r), N.lift(VInt(2)))
+
+
+def _q_blocks(E, S, elem, upto, rx):
+    j = qv("bj")
+    return FA([j], z3.Implies(z3.And(0 <= j, j < upto), z3.And(elem[2 + 2 * j] == q_dist(E, rx[j]), elem[3 + 2 * j] == q_const(E, S, rx[j]))),
+              patterns=[rx[j]])
+
+
+def _q_squares(E, elem, upto, rx):
+    j = qv("sj")
+    return FA([j], z3.Implies(z3.And(0 <= j, j < upto), elem[j] == q_square(E, rx[j])), patterns=[rx[j], elem[j]])
+
+
+def q_objective(E, expr):
+    return N.term("call(direction,sloppy)", N.term("attr.Objective", CR._prob(E)), expr, N.lift(VConc("min")), N.lift(VBool(True)))
+
+
+def _q_reference(E, tr):
+    """-> (reference term or None, rest of the trace)"""
+    if isinstance(E["solution"], VNone):
+        if not (tr and tr[0][0] == "pfba"):
+            return None, tr
+        _, pos, kwn, res, untouched = tr[0]
+        ok = len(pos) == 1 and isinstance(pos[0], VObj) and pos[0].oid == E["model"].oid and not kwn and untouched is True
+        return (res.t if ok and isinstance(res, N.VNp) else None), tr[1:]
+    return (E["solution"].t if isinstance(E["solution"], N.VNp) else None), tr
+
+
+def _q_visible(E, S, ln, elem, sn, se, sk, total, final):
+    """the documented quadratic problem: the list handed to add_cons_vars, the list summed by symbolics.add, the objective installed last"""
+    n, rx = CR._rxns(E)
+    cs = [ln == 2 + 2 * n, elem[0] == CR.old_variable(E, CM.OLD_VAR), elem[1] == CR.old_constraint(E, CM.OLD_VAR, CM.OLD_CONS),
+          _q_blocks(E, S, elem, n, rx), sn == n]
+    if sk == "np":
+        cs.append(_q_squares(E, se, n, rx))
+    else:
+        cs.append(n == 0)             # (a list that never received an entry has no element kind)
+    cs.append(final == q_objective(E, total))
+    return cs
+
+
+def _q_post(E):
+    S, tr = _q_reference(E, _tr(E.s1))
+    if S is None or [ev[0] for ev in tr] != ["set_objective", "add_cons_vars", "symbolics.add", "set_objective"]:
+        return z3.BoolVal(False)
+    _, recv, snap, kws, npos = tr[1]
+    _, sq, total = tr[2]
+    if not (isinstance(recv, VObj) and recv.oid == E["model"].oid and snap is not None and snap[2] == "np" and not kws and npos == 1
+            and sq is not None):
+        return z3.BoolVal(False)
+    ln, elem, _ = snap
+    sn, se, sk = sq
+    inst = E.s1.ghost.get("installed_objective")
+    if inst is None:
+        return z3.BoolVal(False)
+    cs = [tr[0][1] == q_objective(E, CR.ZERO)] + _q_visible(E, S, ln, elem, sn, se, sk, total.t, tr[3][1]) + [inst == tr[3][1]]
+    if isinstance(E["solution"], VNone):
+        cs.append(_stack_as_at_entry(E, E.s1))          # pfba closed its context
+    return z3.And(*cs)
+
+
+def _q_added_result(eng, st, E):
+    given = E["solution"]
+    S = given.t if isinstance(given, N.VNp) else fresh("np:reference_solution", N.NP)
+    A = z3.ArraySort(z3.IntSort(), N.NP)
+    g = (fresh("added_len", z3.IntSort()), fresh("added_elem", A), S, fresh("squares_len", z3.IntSort()), fresh("squares_elem", A),
+         fresh("np:sum_of_squares", N.NP))
+    return st.setghost(("added", QKEY), g).setghost("installed_objective", fresh("np:installed_objective", N.NP)), NONE
+
+
+def _q_post_call(E):
+    g, inst = E.s1.ghost.get(("added", QKEY)), E.s1.ghost.get("installed_objective")
+    if g is None or inst is None:
+        return z3.BoolVal(False)
+    ln, elem, S, sn, se, total = g
+    cs = _q_visible(E, S, ln, elem, sn, se, "np", total, inst)
+    if isinstance(E["solution"], VNone):
+        cs.append(_stack_as_at_entry(E, E.s1))
+    return z3.And(*cs)
+
+
+def _q_call_cases():
+    out = []
+    for tag, given in (("reference_given", True), ("reference_from_pfba", False)):
+        pred = (lambda given: lambda a, st: isinstance(a["solution"], VNone) != given)(given)
+        c = Case("quadratic/" + tag, requires=lambda E: z3.Not(CM._already(E)), ensures=_q_post_call)
+        c.result = _q_added_result
+        bad = Case("quadratic/already_moma/" + tag, requires=CM._already, raises="ValueError")
+        if not given:
+            c.may_raise = "OptimizationError"
+            c.ensures_on_raise = lambda E: _stack_as_at_entry(E, E.s1)
+        c.applies = bad.applies = pred
+        out += [c, bad]
+    return out
+
+
+def _q_loop_inv(E, Lc):
+    S = CR._ref_in_loop(E, Lc)
+    ta, ov = Lc.var("to_add"), Lc.var("obj_vars")
+    if S is None or not (isinstance(ta, VObj) and isinstance(ov, VObj)):
+        return z3.BoolVal(False)
+    rta, rov = Lc.st.objs[ta.oid], Lc.st.objs[ov.oid]
+    if rta["ekind"] != "np" or (rov["ekind"] != "np" and not z3.is_int_value(z3.simplify(rov["len"]))):
+        return z3.BoolVal(False)
+    n, rx = CR._rxns(E)
+    i = Lc.i
+    out = [rta["len"] == 2 + 2 * i, rta["elem"][0] == CR.old_variable(E, CM.OLD_VAR),
+           rta["elem"][1] == CR.old_constraint(E, CM.OLD_VAR, CM.OLD_CONS), _q_blocks(E, S, rta["elem"], i, rx), rov["len"] == i]
+    if rov["ekind"] == "np":
+        out.append(_q_squares(E, rov["elem"], i, rx))
+    return z3.And(*out)
+
+
+def _qp_capable(E):
+    return N.truthy(N.term("contains", QP_SOLVERS, N.term("interface_to_str", CR._prob(E))))
+
+
+def _q_pre(E):
+    out = [CR._pre(E), _qp_capable(E)]
+    if isinstance(E["solution"], VNone):
+        out.append(z3.Not(CP._already(E)))
+    return z3.And(*out)
+
+
+def _q_mod(E):
+    m = E["model"]
+    out = CR._mod(E) + [("ghost", "installed_objective", lambda st: None)]
+    if isinstance(E["solution"], VNone):
+        out = out + _ctx_mod(E) + C4._slim_mod(Env({"self": m}, E.s0, eng=E.eng)) + \
+            [("attr", C4.objective_of(E.s0, m), "value", lambda st: C4._fresh_real(st))]
+    return out
+
+
+def _q_nothing_done(E):
+    return z3.BoolVal(len(_tr(E.s1)) == 0)
+
+
+def _q_reference_failed(E):
+    """pfba raised: nothing was built, added or installed (the objective is the entry objective), the stack is as at entry"""
+    m = E["model"]
+    o0, o1 = E.s0.objs[C4.objective_of(E.s0, m).oid], E.s1.objs[C4.objective_of(E.s1, m).oid]
+    same = all(o0[a] is o1[a] for a in ("attr:name", "attr:direction", "attr:expression"))
+    return z3.And(z3.BoolVal(len(_tr(E.s1)) == 0 and same), _stack_as_at_entry(E, E.s1))
+
+
+def _q_cases():
+    out = []
+    for tag, t in (("reference_given", N.TNp()), ("reference_from_pfba", TNone())):
+        c = Case("quadratic/" + tag, requires=lambda E: z3.Not(CM._already(E)), ensures=_q_post)
+        bad = Case("quadratic/already_moma/" + tag, requires=CM._already, raises="ValueError", ensures=_q_nothing_done)
+        if tag == "reference_from_pfba":
+            c.may_raise = "OptimizationError"
+            c.ensures_on_raise = _q_reference_failed
+        c.params_override = bad.params_override = {"solution": t}
+        out += [c, bad]
+    return out
+
+
+REG.add(Contract(CM.MM, "add_moma", "C09", [("model", _model_t()), ("solution", N.TNp()), ("linear", TConc(False))],
+                 _q_cases(), pre=_q_pre, modifies=_q_mod, loops={0: LoopSpec(_q_loop_inv, CM._loop_mod)}, key=QKEY,
+                 note="linear=False; QP-capable solver interface (no solver switch); with solution None: no pFBA objective installed"))
+REG.get(QKEY).call_cases = _q_call_cases()
+VISIBLE_CALL[QKEY] = _q_post_call
+HOOKS_Q = chain_hooks(Q_HOOKS, CR.OWN_HOOKS, N.HOOKS)
